@@ -313,6 +313,10 @@ func toValue(value interface{}) Value {
 	case *object:
 		return Value{kind: valueObject, value: value}
 	case *Object:
+		if value == nil {
+			// e.g. the nil result of Value.Object() on a primitive handed back to Set
+			return nullValue
+		}
 		return Value{kind: valueObject, value: value.object}
 	case Object:
 		return Value{kind: valueObject, value: value.object}
